@@ -343,15 +343,14 @@ def _mk_nary(op, xs):
     return ('nary', op, tuple(rest))
 
 
-def norm(e, ctx=_EMPTY):
+def norm(e, ctx=_EMPTY, _depth=0):
     def fix(x):
-        out = None
-        for _ in range(8):
-            n = _norm1(x, ctx)
-            if n is None or n == x:
-                break
-            out = x = n
-        return out
+        n = _norm1(x, ctx)
+        if n is None or n == x:
+            return None
+        if _depth > 12:
+            return n
+        return norm(n, ctx, _depth + 1)         # a rewrite may expose new redexes below the node
     return subst(e, fix)
 
 
@@ -386,6 +385,14 @@ def _norm1(e, ctx):
         return None
     if k == 'call':
         fn, args, kwargs = e[1], e[2], e[3]
+        if any(a[0] == 'star' and a[1][0] in ('tuple', 'list') for a in args):
+            flat = []
+            for a in args:
+                if a[0] == 'star' and a[1][0] in ('tuple', 'list'):
+                    flat.extend(a[1][1])
+                else:
+                    flat.append(a)
+            return ('call', fn, tuple(flat), kwargs)
         # Enum(value) -> member
         cn = _cls_name(fn)
         if cn in ctx.enums and len(args) == 1 and not kwargs:
@@ -439,6 +446,17 @@ def _norm1(e, ctx):
                 and isinstance(a[3], str):
             h = ('has', b[1], a[3])
             return h if op == 'in' else ('un', 'not', h)
+        if op == 'is not':
+            return ('un', 'not', ('cmp', 'is', a, b))
+        if op == 'is' and b == ('const', None):
+            if a[0] == 'phi':
+                return ('phi', a[1], ('cmp', 'is', a[2], b), ('cmp', 'is', a[3], b))
+            if a[0] == 'call' and (_cls_name(a[1]) or "x")[:1].isupper():
+                return ('const', False)             # the result of a constructor call is never None
+            if a[0] in ('tuple', 'list', 'dict', 'set'):
+                return ('const', False)
+        if op == 'not in' and not (b[0] == 'attr' and b[2] == 'features' and a[0] == 'enum'):
+            return ('un', 'not', ('cmp', 'in', a, b))
         if op == '>':
             op, a, b = '<', b, a
         elif op == '>=':
@@ -468,7 +486,7 @@ def _norm1(e, ctx):
         if op in ('~', 'not') and a[0] == 'un' and a[1] == op:
             return a[2]
         if op == 'not' and a[0] == 'cmp':
-            inv = {'==': '!=', '!=': '==', 'in': 'not in', 'not in': 'in', 'is': 'is not', 'is not': 'is'}
+            inv = {'==': '!=', '!=': '=='}
             if a[1] in inv:
                 return ('cmp', inv[a[1]], a[2], a[3])
         if op == '-':
@@ -552,6 +570,10 @@ def _norm1(e, ctx):
             st = ('const', 1)
         return ('slice', lo, hi, st)
     if k == 'phi':
+        if e[2] == ('const', False) and e[1] == ('un', 'not', e[3]):
+            return e[3]
+        if e[3] == ('const', False) and e[1] == e[2]:
+            return e[2]
         if e[3] == ('undef',):
             return e[2]
         if e[2] == ('undef',):
@@ -677,3 +699,12 @@ def show(e):
     if k == 'localfn':
         return "<localfn>"
     return repr(e)
+
+
+def split_neg(e):
+    """(positive expression, polarity) of a normalised Boolean expression."""
+    pol = True
+    while e[0] == 'un' and e[1] == 'not':
+        e = e[2]
+        pol = not pol
+    return e, pol
